@@ -199,10 +199,14 @@ func (s *metricSchemaStore) PrepareFlush() {
 }
 
 func (s *metricSchemaStore) needFlush() bool {
-	s.lock.RLock()
-	defer s.lock.RUnlock()
+	s.lock.Lock()
+	defer s.lock.Unlock()
 
-	return s.immutable != nil && !s.immutable.IsEmpty()
+	if s.immutable != nil && s.immutable.IsEmpty() {
+		// nothing was prepared: release it, otherwise PrepareFlush never swaps again and later data is never flushed
+		s.immutable = nil
+	}
+	return s.immutable != nil
 }
 
 func (s *metricSchemaStore) Flush() error {
